@@ -21,7 +21,7 @@ use linfa_clustering::{KMeans, KMeansInit};
 use linfa_nn::distance::{Distance, L1Dist, L2Dist, LInfDist, LpDist};
 use lvmc_core::enumerate as en;
 use lvmc_core::{close, guarded, json, Ctx, Level, Value, Violation};
-use ndarray::{Array1, Array2};
+use ndarray::{s, Array1, Array2, ArrayBase, ArrayView2, Data, Ix2, ShapeBuilder};
 use rand::{RngCore, SeedableRng};
 use rand_xoshiro::Xoshiro256Plus;
 use serde::{Deserialize, Serialize};
@@ -68,6 +68,9 @@ struct Case {
     mult: Vec<usize>,
     #[serde(default)]
     interleave: bool,
+    /// also run the memory-layout sweep for this case
+    #[serde(default)]
+    layouts: bool,
 }
 
 #[derive(Clone, Copy, PartialEq, Debug)]
@@ -468,7 +471,7 @@ fn observe<F: Float, D: Distance<F>>(m: &KMeans<F, D>) -> Obs {
 
 #[allow(clippy::too_many_arguments)]
 fn fit_once<F: Float, D: Distance<F>, R: rand::Rng + Clone>(
-    data: &Array2<F>,
+    data: ArrayView2<F>,
     k: usize,
     init: KMeansInit<F>,
     rng: R,
@@ -478,7 +481,7 @@ fn fit_once<F: Float, D: Distance<F>, R: rand::Rng + Clone>(
     tol: f64,
 ) -> Result<KMeans<F, D>, (String, String)> {
     let r = guarded(|| {
-        let ds = DatasetBase::from(data.clone());
+        let ds = DatasetBase::from(data);
         KMeans::params_with(k, rng, dist)
             .n_runs(n_runs)
             .max_n_iterations(max_iter)
@@ -522,11 +525,11 @@ impl<'a, F: Float> Env<'a, F> {
 }
 
 /// predict (batch + single row) and transform against the independent arg-min scan
-fn check_assign<F: Float, D: Distance<F>>(
+fn check_assign<F: Float, D: Distance<F>, S: Data<Elem = F>>(
     env: &Env<F>,
     model: &KMeans<F, D>,
     obs: &Obs,
-    points: &Array2<F>,
+    points: &ArrayBase<S, Ix2>,
     p64: &[Vec<f64>],
     which: &str,
     at: &Value,
@@ -698,7 +701,7 @@ fn check_model<F: Float, D: Distance<F>>(
     let loose_rel = num.rel * (n as f64 + 2.0);
     if !obs.inertia.is_finite() || obs.inertia < 0.0 {
         viols.push(Violation::new("kmeans.fit.inertia_not_finite_nonnegative", format!("inertia = {}", obs.inertia), env.cj(at.clone())));
-    } else if !close(obs.inertia, want, num.rel, num.tie) {
+    } else if !close(obs.inertia, want, num.rel.max(n as f64 * num.eps), num.tie) {
         let lag_of = |ps: &Vec<(Vec<f64>, Vec<u8>)>| -> Vec<f64> {
             ps.iter()
                 .map(|(p, a)| env.pts.iter().zip(a).zip(&env.w).map(|((x, &c), &w)| w * rd(met, x, &p[c as usize * d..(c as usize + 1) * d])).sum::<f64>() / n as f64)
@@ -832,6 +835,156 @@ fn nontrivial(env_pts: &[Vec<f64>], k: usize) -> bool {
 }
 
 // ------------------------------------------------------------------------------------------
+// memory layouts: the same logical matrix behind different strides
+// ------------------------------------------------------------------------------------------
+
+const LAYOUTS: [&str; 4] = ["column_major_owned", "transposed_view_of_feature_major", "reversed_row_view", "every_second_row_view"];
+
+/// Owns the backing storage of one layout variant of a logical n x d matrix.
+struct Laid<F: Float> {
+    kind: &'static str,
+    backing: Array2<F>,
+}
+
+impl<F: Float> Laid<F> {
+    fn new(kind: &'static str, m: &Array2<F>) -> Laid<F> {
+        let (n, d) = m.dim();
+        let backing = match kind {
+            // owned array in Fortran order
+            "column_major_owned" => Array2::from_shape_fn((n, d).f(), |(i, j)| m[(i, j)]),
+            // feature-major (d x n) standard array, used through .t()
+            "transposed_view_of_feature_major" => Array2::from_shape_fn((d, n), |(j, i)| m[(i, j)]),
+            // rows stored in reverse order, used through a negative-stride view
+            "reversed_row_view" => Array2::from_shape_fn((n, d), |(i, j)| m[(n - 1 - i, j)]),
+            // 2n rows, the odd ones hold poison (NaN), used through a step-2 view
+            "every_second_row_view" => Array2::from_shape_fn((2 * n, d), |(i, j)| if i % 2 == 0 { m[(i / 2, j)] } else { F::nan() }),
+            _ => panic!("bad layout"),
+        };
+        Laid { kind, backing }
+    }
+    fn view(&self) -> ArrayView2<'_, F> {
+        match self.kind {
+            "column_major_owned" => self.backing.view(),
+            "transposed_view_of_feature_major" => self.backing.t(),
+            "reversed_row_view" => self.backing.slice(s![..;-1, ..]),
+            "every_second_row_view" => self.backing.slice(s![..;2, ..]),
+            _ => panic!("bad layout"),
+        }
+    }
+}
+
+/// labels (batch), labels (single row), transform of a model on some points; None on panic
+fn probe<F: Float, D: Distance<F>>(model: &KMeans<F, D>, pts: ArrayView2<F>) -> Option<(Vec<usize>, Vec<usize>, Vec<f64>)> {
+    guarded(|| {
+        let b: Array1<usize> = model.predict(&pts);
+        let s: Vec<usize> = (0..pts.nrows()).map(|i| model.predict(&pts.row(i))).collect();
+        let t: Array1<F> = model.transform(&pts);
+        (b.to_vec(), s, t.iter().map(|&x| to_f64(x)).collect())
+    })
+    .ok()
+}
+
+/// Layout sweep of one trajectory-style case: for the budgets 1 and m_max the fit is repeated with the
+/// training matrix (and, for the owned column-major variant, the Precomputed centroids) in every
+/// layout of LAYOUTS; fitted centroids / counts / inertia must agree with the standard-layout fit,
+/// predict / transform of BOTH models on the re-laid-out training and query points must agree with the
+/// standard-layout answers and pass the arg-min oracle.
+fn layout_sweep<F: Float, D: Distance<F>>(env: &Env<F>, case: &Case, init_f: &Array2<F>, dist: &D, viols: &mut Vec<Violation>, cnt: &mut Cnt) {
+    let k = env.k;
+    let mut budgets = vec![1usize, case.budgets];
+    budgets.dedup();
+    let all_pts: Vec<(&str, &Array2<F>, &Vec<Vec<f64>>)> = vec![("training", &env.train, &env.pts), ("new", &env.queries, &env.q64)];
+    for &m in &budgets {
+        let rng = Xoshiro256Plus::seed_from_u64(42);
+        let std_model = match fit_once(env.data.view(), k, KMeansInit::Precomputed(init_f.clone()), rng, dist.clone(), 1, m as u64, case.tol) {
+            Ok(x) => x,
+            Err(_) => continue, // reported by the main loop
+        };
+        let std_obs = observe(&std_model);
+        let std_probe: Vec<_> = all_pts.iter().map(|(_, a, _)| probe(&std_model, a.view())).collect();
+        for kind in LAYOUTS {
+            cnt.add("fits", 1);
+            cnt.add("layout_fits", 1);
+            let at = json!({"budget": m, "layout": kind});
+            let laid = Laid::new(kind, &env.data);
+            let init_v = if kind == "column_major_owned" { Array2::from_shape_fn(init_f.dim().f(), |ij| init_f[ij]) } else { init_f.clone() };
+            let rng = Xoshiro256Plus::seed_from_u64(42);
+            let model = match fit_once(laid.view(), k, KMeansInit::Precomputed(init_v), rng, dist.clone(), 1, m as u64, case.tol) {
+                Ok(x) => x,
+                Err((sig, what)) => {
+                    viols.push(Violation::new(sig, format!("{} (training matrix as {})", what, kind), env.cj(at)));
+                    continue;
+                }
+            };
+            let obs = observe(&model);
+            let bits = |v: &Vec<f64>| v.iter().map(|x| x.to_bits()).collect::<Vec<u64>>();
+            if obs.shape == std_obs.shape && bits(&obs.flat) == bits(&std_obs.flat) && bits(&obs.counts) == bits(&std_obs.counts) && obs.inertia.to_bits() == std_obs.inertia.to_bits() {
+                cnt.add("layout_fits_bit_identical", 1);
+            } else {
+                let cent_ok = obs.shape == std_obs.shape && obs.flat.iter().zip(&std_obs.flat).all(|(a, b)| (a - b).abs() <= env.num.ctol);
+                let inert_ok = close(obs.inertia, std_obs.inertia, env.num.rel.max(env.n as f64 * env.num.eps), env.num.tie);
+                if cent_ok && inert_ok && obs.counts == std_obs.counts {
+                    cnt.add("layout_fits_equal_within_tolerance_only", 1);
+                } else {
+                    viols.push(Violation::new(
+                        "kmeans.fit.layout_dependence",
+                        format!(
+                            "budget {}: training matrix as {} gives centroids {:?} counts {:?} inertia {}, the standard-layout matrix with the same values gives centroids {:?} counts {:?} inertia {}",
+                            m, kind, obs.flat, obs.counts, obs.inertia, std_obs.flat, std_obs.counts, std_obs.inertia
+                        ),
+                        env.cj(at.clone()),
+                    ));
+                }
+            }
+            // prediction-side inputs in the same layout, through the standard-layout model and through this one
+            for (pi, (which, a, p64)) in all_pts.iter().enumerate() {
+                let laid_p = Laid::new(kind, a);
+                let Some((sb, ss, st)) = std_probe[pi].clone() else { continue };
+                match probe(&std_model, laid_p.view()) {
+                    None => viols.push(Violation::new(
+                        "kmeans.predict.panic",
+                        format!("predict / transform on {} points as {} panicked", which, kind),
+                        env.cj(at.clone()),
+                    )),
+                    Some((b, sg, t)) => {
+                        cnt.add("layout_predict_transform_comparisons", 1);
+                        for i in 0..p64.len() {
+                            let rds: Vec<f64> = (0..k).map(|c| rd(env.met, &p64[i], &std_obs.flat[c * env.d..(c + 1) * env.d])).collect();
+                            let best = rds.iter().cloned().fold(f64::INFINITY, f64::min);
+                            let worst = rds.iter().cloned().fold(0.0, f64::max);
+                            let ptie = 64.0 * env.num.eps * worst;
+                            let tied = rds.iter().filter(|&&x| x <= best + ptie).count() > 1;
+                            if (b[i] != sb[i] || sg[i] != ss[i]) && !tied {
+                                viols.push(Violation::new(
+                                    "kmeans.predict.layout_dependence",
+                                    format!(
+                                        "same model, {} point {:?}: predict gives {} (batch) / {} (single row) when the input is {} but {} / {} for the standard layout",
+                                        which, p64[i], b[i], sg[i], kind, sb[i], ss[i]
+                                    ),
+                                    env.cj(at.clone()),
+                                ));
+                                break;
+                            }
+                            if t[i].to_bits() != st[i].to_bits() && !close(t[i], st[i], env.num.rel, ptie) {
+                                viols.push(Violation::new(
+                                    "kmeans.transform.layout_dependence",
+                                    format!("same model, {} point {:?}: transform gives {} when the input is {} but {} for the standard layout", which, p64[i], t[i], kind, st[i]),
+                                    env.cj(at.clone()),
+                                ));
+                                break;
+                            }
+                        }
+                    }
+                }
+                // and the arg-min oracle on the layout-fitted model with layout inputs
+                let v = laid_p.view();
+                check_assign(env, &model, &obs, &v, p64, which, &at, viols, cnt);
+            }
+        }
+    }
+}
+
+// ------------------------------------------------------------------------------------------
 // family 1: trajectories from a precomputed start, lock-step with the reference step
 // ------------------------------------------------------------------------------------------
 
@@ -927,7 +1080,7 @@ fn run_traj<F: Float, D: Distance<F>>(case: &Case, dist: D, met: Met, viols: &mu
         }
         let at = if n_runs == 1 { json!({"budget": m}) } else { json!({"budget": m, "n_runs": n_runs}) };
         let rng = Xoshiro256Plus::seed_from_u64(42);
-        let model = match fit_once(&env.data, k, KMeansInit::Precomputed(init_f.clone()), rng, dist.clone(), n_runs, m as u64, case.tol) {
+        let model = match fit_once(env.data.view(), k, KMeansInit::Precomputed(init_f.clone()), rng, dist.clone(), n_runs, m as u64, case.tol) {
             Ok(m) => m,
             Err((sig, what)) => {
                 viols.push(Violation::new(sig, what, env.cj(at)));
@@ -1008,6 +1161,9 @@ fn run_traj<F: Float, D: Distance<F>>(case: &Case, dist: D, met: Met, viols: &mu
         }
       }
     }
+    if case.layouts {
+        layout_sweep(&env, case, &init_f, &dist, viols, &mut cnt);
+    }
     cnt
 }
 
@@ -1044,7 +1200,7 @@ fn run_seeded<F: Float, D: Distance<F>>(case: &Case, dist: D, met: Met, viols: &
         let at = json!({"restart_alone": j});
         let rng = TapRng::new(state.clone());
         let tap = rng.tap.clone();
-        match fit_once(&env.data, k, init(), rng, dist.clone(), 1, case.max_iter, case.tol) {
+        match fit_once(env.data.view(), k, init(), rng, dist.clone(), 1, case.max_iter, case.tol) {
             Ok(model) => {
                 let obs = observe(&model);
                 let before = cnt.get("inertia_lagged_cases");
@@ -1071,7 +1227,7 @@ fn run_seeded<F: Float, D: Distance<F>>(case: &Case, dist: D, met: Met, viols: &
         }
         let at = json!({"n_runs": r});
         let rng = TapRng::new(seed_state.clone());
-        match fit_once(&env.data, k, init(), rng, dist.clone(), r, case.max_iter, case.tol) {
+        match fit_once(env.data.view(), k, init(), rng, dist.clone(), r, case.max_iter, case.tol) {
             Ok(model) => {
                 let obs = observe(&model);
                 // triage aid only: the single-restart result of the last restart, when the kept
@@ -1118,7 +1274,7 @@ fn run_seeded<F: Float, D: Distance<F>>(case: &Case, dist: D, met: Met, viols: &
                 }
                 let at = json!({"budget": m, "n_runs": r, "ladder": true});
                 let rng = TapRng::new(seed_state.clone());
-                match fit_once(&env.data, k, init(), rng, dist.clone(), r, m as u64, case.tol) {
+                match fit_once(env.data.view(), k, init(), rng, dist.clone(), r, m as u64, case.tol) {
                     Ok(model) => {
                         let obs = observe(&model);
                         if !check_model(&env, &model, &obs, &at, true, None, None, false, &mut pcache, viols, &mut cnt) {
@@ -1194,7 +1350,7 @@ fn replay_value(v: &Value) -> Vec<Violation> {
     });
     if let Some(at) = at {
         // keep the violations of the recorded fit (budget / restart count)
-        let key = |a: &Value| (a.get("budget").cloned(), a.get("restart_alone").cloned(), a.get("n_runs").cloned());
+        let key = |a: &Value| (a.get("budget").cloned(), a.get("restart_alone").cloned(), a.get("n_runs").cloned(), a.get("layout").cloned());
         let want = key(&at);
         out.retain(|x| x.case.get("at").map(|a| key(a) == want).unwrap_or(false));
     }
@@ -1281,6 +1437,7 @@ fn main() {
          seeded cases = dataset (id image; all images for n<=3) x float x metric x k x {{random, kmeans++, kmeans||}} x seed 0..{s} x iteration cap {caps:?}, tolerance 1e-4; per case single-restart fits of restart 1..={r} and fits with n_runs = 2..={r} from the same seed; for L2 and every (dataset, initialiser, seed) additionally fits with n_runs in {{2, {r}}} for every budget 1..={lad}, cost of the returned centroids compared along the budgets. \
          replicated cases = every set of 2..3 distinct points of {{0..4}} (1-D) and of {{(0,0),(0,1),(1,0),(1,1),(2,2)}} (2-D) under the images id and +1e3, every point repeated so that n is one of {{1024, 1025, 2049, 3000}} (thorough: also 1023, 2048, 4097; remainder to the first point), rows contiguous per point or round-robin, f64, L2 (thorough: + L1), k = 1..min(p,3), every k-subset of the distinct points as Precomputed start, budgets 1..=3, n_runs(1): same lock-step oracle with the reference step working on (point, multiplicity) pairs (copies of a point are identical rows and go to the same centroid), predict / transform on the distinct points. \
          wide cases = 3 point sets of 6 points (hand-built axes set, generic-position lattice + jitter, sparse) in d = 16, 17, 33, 40 features x {{L2, L1, Linf, Lp(3)}} x f64 (+ f32 for d = 17) x k = 2..3 x every k-subset of the points as Precomputed start, budgets 1..=2, n_runs 1..3, same oracles (queries: pairwise midpoints, origin, far point). \
+         layout sweep (trajectory cases under the identity image with tolerance 1e-4, replicated f64 contiguous cases with n = 1025 (thorough: + 4097), every wide case): for the budgets 1 and max the fit is repeated with the training matrix as column-major owned array (Precomputed centroids column-major too), transposed view of a feature-major array, reversed-row view of a reversed copy, every-second-row view of a 2n-row array whose odd rows are NaN; centroids / counts / inertia must equal the standard-layout fit, predict (batch, single row) / transform of both models on the equally re-laid-out training and query points must equal the standard-layout answers and pass the arg-min oracle. replicated cases also in f32 under the identity image (quick: n = 1025). \
          evaluations = fits of the real code; non-trivial = fits with k >= 2 on data with >= 2 distinct rows; every fitted model additionally gets predict (batch, single row) / transform evaluations on its training rows and on the lattice + half-lattice + far query points (first and last fit of a case). \
          states / transitions = distinct reference states (centroid set, stopped flag) per level / reference steps.",
         lad = ladder, n1 = n1_max, n1a = n1_all_images, n2 = n2_max, k = k_max, b = budgets, s = seeds, caps = iter_caps, r = max_runs
@@ -1290,6 +1447,7 @@ fn main() {
     ctx.assume("centroid equality with a reference state: max abs coordinate difference <= max(rel*max|coord|, 4 e_c), rel = 1e-9 (f64) / 1e-4 (f32); inertia vs recomputed mean cost: rel + tie absolute; a stop criterion within rel*tol + 2 e_c sqrt(kd) of the tolerance admits both stopping and continuing");
     ctx.assume("cost monotonicity (L2 only, a theorem for m_k-means): cost(m+1) <= cost(m) + n*tie + 1e-12*cost(m), cost recomputed by the harness from the returned centroids; for L1, Linf and Lp(3) only the recurrence is checked (no monotonicity claim); asserted for n_runs = 1, 2, 3 from a Precomputed start and for n_runs > 1 from seeded starts (same seed => same start of every restart whatever the budget; the minimum over restarts of non-increasing costs is non-increasing)");
     ctx.assume("restart monotonicity is compared exactly (<=) on the reported values; k-means|| draws per-rayon-job generators, every case runs in its own 1-thread rayon pool so results are schedule independent (schedules are C20's subject)");
+    ctx.assume("layouts: results are expected bit-identical to the standard-layout run (counted); a run that is not bit-identical but within the centroid / inertia / transform tolerances above is counted separately and not reported; labels may differ only on points whose centroids are tied; inertia relative tolerance is max(rel, n*eps) (matters for n >= 1024 in f32 only)");
     ctx.assume("predict: any centroid within 64*eps*(largest reduced distance of the point) of the minimum is accepted; cluster_count must be the histogram of SOME nearest-centroid assignment of the training rows to the returned centroids (tie sets, exact feasibility search)");
     ctx.assume("triage signatures: 'before_last_update' is assigned only when the reported value equals the cost / histogram of a centroid set P with update(P) = returned centroids (P known from the reference trajectory, or solved exactly from P_c = (n_c+1) C_c - S_c over all k^n assignments); 'from_last_restart' only when the counts equal those of a single-restart fit of the last restart started from the read-back generator state");
 
@@ -1358,6 +1516,7 @@ fn main() {
                                     ladder: 0,
                                     mult: vec![],
                                     interleave: false,
+                                    layouts: img == "id" && tol == tols[0],
                                     init_kind: String::new(),
                                     seed: 0,
                                     max_runs: 0,
@@ -1390,6 +1549,7 @@ fn main() {
                                             ladder: if cap == iter_caps[0] && metric == "L2" { ladder } else { 0 },
                                             mult: vec![],
                                             interleave: false,
+                                            layouts: false,
                                         });
                                         n_seeded += 1;
                                     }
@@ -1424,6 +1584,13 @@ fn main() {
                     // every point total / p copies, the remainder goes to the first point
                     let mut mult = vec![total / p; p];
                     mult[0] += total % p;
+                    // f32: identity image only (at +1e3 the f32 rounding error of a sum of thousands of rows
+                    // exceeds the point spacing), quick: n = 1025 only
+                    let mut floats = vec!["f64"];
+                    if img == "id" && (thorough || total == 1025) {
+                        floats.push("f32");
+                    }
+                    for float in floats {
                     for interleave in [false, true] {
                         for metric in &metrics {
                             for k in 1..=p.min(3) {
@@ -1433,7 +1600,7 @@ fn main() {
                                         kind: "replicated".into(),
                                         family: format!("{}x{}/{}", fam, total, img),
                                         data: map(base),
-                                        float: "f64".into(),
+                                        float: float.into(),
                                         metric: metric.to_string(),
                                         k,
                                         tol: 1e-4,
@@ -1448,11 +1615,13 @@ fn main() {
                                         ladder: 0,
                                         mult: mult.clone(),
                                         interleave,
+                                        layouts: float == "f64" && !interleave && (total == 1025 || (thorough && total == 4097)),
                                     });
                                     n_repl += 1;
                                 }
                             }
                         }
+                    }
                     }
                 }
             }
@@ -1542,6 +1711,7 @@ fn main() {
                                 ladder: 0,
                                 mult: vec![],
                                 interleave: false,
+                                layouts: true,
                             });
                             n_wide += 1;
                         }
